@@ -58,7 +58,7 @@ def rt(v):
 
 class C06(AstKindProp):
     id = "C06"
-    quick_cases = 500
+    quick_cases = 800
     thorough_cases = 12000
     rule = (
         "case = (IR of the property domain, kind in class/function/argparse, emitter options). Every artefact is "
